@@ -98,6 +98,46 @@ theorem uncached_reads_getter (w : World Val) (c : Cfg) (ops : List (Op Val))
     | some v => have := h.1 (by simp [hca]); simp [hc] at this
     | none => rfl
 
+/-- **Cache hit.** With caching on, once a read has produced a (non-sentinel)
+value, every later read returns that same value however the underlying state
+is bumped in between — until an assignment or deletion. -/
+theorem cache_hit_stable (w : World Val) (c : Cfg) (hc : c.cache = true) (ops : List (Op Val))
+    (v : Val) (hv : (pget w c (run w c St.init ops).1).2 = .val v) (hns : isSentinel w v = false)
+    (more : List (Op Val)) (hm : ∀ op ∈ more, op = .read ∨ op = .bump) :
+    (pget w c (run w c (pget w c (run w c St.init ops).1).1 more).1).2 = .val v := by
+  have hg : (c.overridable || c.cache) = true := by simp [hc]
+  have hslot : (pget w c (run w c St.init ops).1).1.slot = some v := by
+    generalize (run w c St.init ops).1 = s at hv ⊢
+    unfold pget at hv ⊢
+    simp only [hg, if_true] at hv ⊢
+    cases hs : s.slot with
+    | some v0 => simp only [hs] at hv ⊢; cases hv; rfl
+    | none =>
+      simp only [hs] at hv ⊢
+      cases hgc : getterChecked w c s.under with
+      | val v1 =>
+        simp only [hgc] at hv ⊢
+        cases hv
+        simp [hc, hns]
+      | done => simp [hgc] at hv
+      | err e => simp [hgc] at hv
+      | nested => simp [hgc] at hv
+  exact pget_of_slot hg (slot_stable w c v hg more hm _ hslot).1
+
+/-- **Override.** After a successful assignment on an overridable property
+without custom setter, every later read returns the delivered value however
+the underlying state changes — until the next assignment or deletion. -/
+theorem override_stable (w : World Val) (c : Cfg) (ho : c.overridable = true) (hs : c.hasSetter = false)
+    (s : St Val) (v v' : Val) (hd : delivered w c v = .deliver v')
+    (more : List (Op Val)) (hm : ∀ op ∈ more, op = .read ∨ op = .bump) :
+    (assign w c s v).2 = .done ∧
+    (pget w c (run w c (assign w c s v).1 more).1).2 = .val v' := by
+  have hg : (c.overridable || c.cache) = true := by simp [ho]
+  have ha : assign w c s v = ({ s with slot := some v' }, .done) := by
+    rw [assign_eq_delivered, hd]; simp [pset, ho, hs]
+  refine ⟨by rw [ha], ?_⟩
+  exact pget_of_slot hg (slot_stable w c v' hg more hm (assign w c s v).1 (by rw [ha])).1
+
 /-- **Assignment rejected.** Neither overridable nor a setter: the descriptor's
 `__set__` raises AttributeError and nothing changes; through `obj.x = v` the
 state never changes either, the result is AttributeError on a plain class and
